@@ -31,6 +31,16 @@ def per_shape(sh, out, rng, ty="i32", all_perms=True):
     for q in ([0] * n, list(range(n - 1)), list(range(n + 1)), [n] + list(range(1, n)), [-n - 1] + list(range(1, n)),
               [2 ** 62] + list(range(1, n)), [-2 ** 63] + list(range(1, n)), []):
         out.append(f"transpose@{ty} {a} {lst(q)}")
+    # every order over the axes, permutation or not (repeats anywhere, adjacent or not — seeded change C01j: uniqueness
+    # tested with dedup accepted [0, 1, 0]), in a random spelling
+    if n <= 3:
+        for q in itertools.product(range(n), repeat=n):
+            out.append(f"transpose@{ty} {a} {lst([x - n if rng.random() < 0.3 else x for x in q])}")
+    else:
+        for _ in range(40):
+            q = [rng.randrange(n) for _ in range(n)]
+            out.append(f"transpose@{ty} {a} {lst([x - n if rng.random() < 0.3 else x for x in q])}")
+        out.append(f"transpose@{ty} {a} {lst([0, 1] + list(range(2, n - 1)) + [0])}")
     rng_ax = range(-n - 2, n + 2)
     for s in rng_ax:
         for d in rng_ax:
@@ -49,6 +59,9 @@ def per_shape(sh, out, rng, ty="i32", all_perms=True):
         out.append(f"moveaxis@{ty} {a} {lst([0, 1])} {lst([1])}")
         out.append(f"moveaxis@{ty} {a} {lst([0, -n])} {lst([0, 1])}")
     if n >= 3:
+        for src, dst in (([0, 1, 0], [0, 1, 2]), ([0, 1, 2], [2, 0, 2]), ([0, 1, -n], [0, 1, 2]), ([0, 1, 2], [1, 0, -n + 1]),
+                         ([2, 0, 2], [0, 1, 2]), ([0, 1, 2], [0, 2, 0])):
+            out.append(f"moveaxis@{ty} {a} {lst(src)} {lst(dst)}")
         for _ in range(6):
             s = rng.sample(range(n), 3)
             d = rng.sample(range(n), 3)
